@@ -47,6 +47,8 @@ T9 = {
     "fileio/read_uf2.cpp": ["read_uf2", "read_block"],
     "fileio/read_uf2.h": ["read_uf2"],
     "fileio/read_elf.cpp": ["read_elf"],
+    "disasm/tms9900.cpp": ["list_output_tms9900"],
+    "disasm/tms9900.h": ["list_output_tms9900"],
     "fileio/read_amiga.cpp": ["read_amiga", "read_hunk_header", "read_code", "read_int32"],
     "fileio/read_amiga.h": ["read_amiga"],
     "fileio/read_macho.cpp": ["read_macho"],
@@ -175,6 +177,7 @@ def transform(rel, text):
 EXTRACT = [
     ("core/AsmContext.cpp", r"^void AsmContext::set_cpu\(int index\)\s*\{", "AsmContext_set_cpu.inc"),
     ("asm/mips.cpp", r"^int link_function_mips\(", "link_function_mips.inc"),
+    ("disasm/tms9900.cpp", r"^(?:extern \"C\" )?void list_output_tms9900\(", "list_output_tms9900.inc"),
     ("core/AsmContext.cpp", r"^int AsmContext::link\(\)", "AsmContext_link.inc"),
     ("core/Linker.cpp", r"^uint8_t \*Linker::get_code_from_symbol\(", "Linker_get_code_from_symbol.inc"),
     ("core/UtilContext.cpp", r"^void UtilContext::print8\(const char \*token\)", "UtilContext_print8.inc"),
